@@ -1,4 +1,5 @@
 import Casm.Proofs.ModeMono
+import Casm.Proofs.Hygiene
 import Casm.Model.Assemble
 /-!
 # C17 — asm blocks and user functions mean what their expansion means
@@ -19,6 +20,11 @@ About the resolver's evaluation environment `Casm.mkEnv` (model of `eval_fn`, `e
 * `asm_loop_unfolds`, `asm_block_guesses_in_a_guessing_pass` — the passes of a block's own loop are
   strict only when the enclosing pass is the last one (finding F39, repaired);
   `asm_block_strict_result_is_the_guessing_result` — strictness only adds errors.
+
+* `parameter_is_substituted_as_text`, `local_is_substituted_by_its_hygienic_name`,
+  `by_value_local_reaches_the_block` — "arguments substituted textually or by value as written";
+  `block_sees_only_its_own_productions_locals` — the locals visible inside a block are exactly the
+  renamed locals of the production that contains it (the cause of finding F40, open).
 
 The equality with the hand-inlined program is established by the search (implementation on
 both programs) and the model correspondence.
@@ -121,5 +127,41 @@ theorem asm_block_strict_result_is_the_guessing_result (st : Static) (defs : Def
     (ectx : ECtx) (v : Value) (h : evalAsm st defs fuel ctx text ectx = .ok v) :
     evalAsm st defs fuel (guessOf ctx) text ectx = .ok v :=
   evalAsm_mono st defs fuel ctx text ectx v h
+
+/-! ## substitution and hygiene -/
+
+/-- **a parameter written `{p}` is replaced by the text of the argument** -/
+theorem parameter_is_substituted_as_text (c : ECtx) (n : String) (p : String × List Char)
+    (h : c.substs.find? (·.1 == n) = some p) : tokenSubst c n = some p.2 := by
+  unfold tokenSubst; rw [h]
+
+/-- **a local of the production written `{v}` is passed by value**: the text put in its place is its
+    hygienic name `__v` … -/
+theorem local_is_substituted_by_its_hygienic_name (c : ECtx) (n : String) (v : Value)
+    (h1 : c.substs.find? (·.1 == n) = none) (h2 : c.locals.get n = some v) :
+    tokenSubst c n = some (hygienizeName n).toList := by
+  unfold tokenSubst; rw [h1]; simp [h2]
+
+/-- … **and that name is bound, inside the block, to the local's value** -/
+theorem by_value_local_reaches_the_block (c : ECtx) (m : String) (hm : m.startsWith "__" = false) :
+    (hygienize c).locals.get (hygienizeName m) = c.locals.get m := by
+  rw [hygienize_locals]; exact renLocals_get c.locals m hm
+
+/-- **a block sees exactly the un-prefixed locals of its own production, renamed** — nothing else.  This is
+    the cause of finding F40: a name that was hygienised one level up (`__y`, standing for a local of a
+    *calling* block and passed on as the text of an argument) is, one level down, either unbound or —
+    by `by_value_local_reaches_the_block` applied to the callee — bound to the callee's own `y`. -/
+theorem block_sees_only_its_own_productions_locals (c : ECtx) (k : String) (v : Value)
+    (h : (hygienize c).locals.get k = some v) :
+    ∃ m, k = hygienizeName m ∧ m.startsWith "__" = false ∧ c.locals.get m = some v := by
+  rw [hygienize_locals] at h; exact renLocals_get_some c.locals k v h
+
+/-- the witness of F40 at the level of contexts: the callee `test2 {a}, {y}` called as `test2 {y}, 5` from a
+    production whose `y` is 0x11 holds `a = 0x11` (text `__y`) and `y = 5`; inside its block `__y` is 5 -/
+example : let callee : ECtx := (({} : ECtx).setLocal "a" (.int ⟨0x11, none⟩)).setLocal "y" (.int ⟨5, none⟩)
+    (hygienize callee).locals.get (hygienizeName "y") = some (.int ⟨5, none⟩) := by
+  intro callee
+  rw [by_value_local_reaches_the_block callee "y" (by decide)]
+  simp [callee, ECtx.setLocal, Locals.set, Locals.get]
 
 end Casm.C17
